@@ -59,6 +59,9 @@ impl RoomNode {
             }
         }
 
+        let nodes: Vec<&Node> = self.admin_nodes.iter().map(|u| &u.node).collect();
+        check_placed(&self.admin_edges, &nodes, ROOM_ADMIN_FIELD_SHORT)?;
+
         //check authorisation consistency
         if self.auth_edges.len() != self.auth_nodes.len() {
             return Err(Error::InvalidNode(
@@ -85,6 +88,8 @@ impl RoomNode {
                 }
             }
         }
+        let nodes: Vec<&Node> = self.auth_nodes.iter().map(|a| &a.node).collect();
+        check_placed(&self.auth_edges, &nodes, ROOM_AUTHORISATION_FIELD_SHORT)?;
 
         Ok(())
     }
@@ -182,6 +187,30 @@ impl RoomNode {
 }
 
 ///
+/// every row of a list must be referenced under the field of that list, and an id can appear only once:
+/// only the first row with a given id is compared with the stored one, and a row is recognised as new by its id
+///
+fn check_placed(edges: &[Edge], nodes: &[&Node], label: &str) -> Result<()> {
+    let mut ids = std::collections::HashSet::new();
+    for node in nodes {
+        if !ids.insert(node.id) {
+            return Err(Error::InvalidNode(
+                "RoomNode contains two nodes with the same id".to_string(),
+            ));
+        }
+        let placed = edges
+            .iter()
+            .any(|edge| edge.dest.eq(&node.id) && edge.label.eq(label));
+        if !placed {
+            return Err(Error::InvalidNode(
+                "RoomNode contains a node that is not referenced in its list".to_string(),
+            ));
+        }
+    }
+    Ok(())
+}
+
+///
 /// authorisation database definition that is used for data synchronisation
 ///
 #[derive(Debug, Clone, Serialize, Deserialize)]
@@ -272,6 +301,13 @@ impl AuthorisationNode {
                 ));
             }
         }
+
+        let nodes: Vec<&Node> = self.right_nodes.iter().map(|n| &n.node).collect();
+        check_placed(&self.right_edges, &nodes, AUTH_RIGHTS_FIELD_SHORT)?;
+        let nodes: Vec<&Node> = self.user_nodes.iter().map(|n| &n.node).collect();
+        check_placed(&self.user_edges, &nodes, AUTH_USER_FIELD_SHORT)?;
+        let nodes: Vec<&Node> = self.user_admin_nodes.iter().map(|n| &n.node).collect();
+        check_placed(&self.user_admin_edges, &nodes, AUTH_USER_ADMIN_FIELD_SHORT)?;
 
         Ok(())
     }
